@@ -625,7 +625,18 @@ theorem C14_collection (s : St) (op : Op) (e : Err) (h : (step s op).2 = .err e)
       have e1 : s1 = (get s n).1 := by rw [heq]
       subst e1
       exact get_core s n
-    · rename_i s1 o heq; simp [heq] at h
+    · rename_i s1 o heq
+      have e1 : s1 = (get s n).1 := by rw [heq]
+      subst e1
+      split
+      · rename_i m hm
+        exfalso
+        apply hne
+        show (delitem s n).2 = .ok
+        unfold delitem
+        rw [heq]
+        simp only [hm]
+      · exact get_core s n
   | clear => simp [step, clear] at h
   | setNumber o n => exact setNumber_err_core hne
   | get n => simp [step] at h
@@ -673,8 +684,8 @@ theorem C14_append_renumber_link_partial (s : St) (o : ObjId) (k : Int) (e : Err
     (h : (appendRenumber s o k).2 = .err e) : (appendRenumber s o k).1.link = s.link := by
   have hs0 : ({ s with link := fun x => if x = o ∧ s.owned = true then true else s.link x } : St) = s := by
     cases s with
-    | mk owned objs cache num link =>
-      simp only [St.mk.injEq, true_and]
+    | mk owned objs cache num link content =>
+      simp only [St.mk.injEq, true_and, and_true]
       funext x
       rcases hpre with hp | hp
       · simp only [] at hp
